@@ -284,7 +284,11 @@ impl<W: AsRef<[u64]>> JsonIndex<W> {
             return None;
         }
 
-        let k32 = k as u32;
+        // `ib_rank` counts in u32 (4 GiB input ceiling), so a rank that does not fit
+        // in u32 can never be present; a truncating cast would alias it to k mod 2^32.
+        let Ok(k32) = u32::try_from(k) else {
+            return None;
+        };
         let n = words.len();
 
         // #40: count `ib_rank` probes so this path's cost can be compared with
@@ -402,7 +406,11 @@ impl<W: AsRef<[u64]>> JsonIndex<W> {
             return None;
         }
 
-        let k32 = k as u32;
+        // `ib_rank` counts in u32 (4 GiB input ceiling), so a rank that does not fit
+        // in u32 can never be present; a truncating cast would alias it to k mod 2^32.
+        let Ok(k32) = u32::try_from(k) else {
+            return None;
+        };
         let n = words.len();
 
         // Binary search over all words
